@@ -161,6 +161,23 @@ func runC18(c *Ctx) {
 	for _, fld := range []string{"VerifyPeerCertificate", "SessionTicketsDisabled", "ClientSessionCache"} {
 		sts := fieldStores(f, tlsConfigT, fld)
 		for _, st := range sts {
+			// a package-level value stored into the configuration is state shared by every client built in the process
+			// (one session cache for differently configured clients, say): definite, whatever the variable is called
+			sharedGlobal := ""
+			for _, o := range originsOf(st.Val) {
+				if ad, isLd := derefLoad(o.V); isLd {
+					if g, isG := ad.(*ssa.Global); isG && g.Pkg != nil && isRepoPath(g.Pkg.Pkg.Path()) {
+						sharedGlobal = short(g.String())
+					}
+				}
+				if g, isG := o.V.(*ssa.Global); isG && g.Pkg != nil && isRepoPath(g.Pkg.Pkg.Path()) {
+					sharedGlobal = short(g.String())
+				}
+			}
+			if sharedGlobal != "" {
+				c.obD("R18.3", st, fld+"-value", false, "tls.Config."+fld+" receives opts."+fld+" unchanged", "it can receive the package-level "+sharedGlobal+", shared by every configuration built in the process")
+				continue
+			}
 			c.obI("R18.3", st, fld+"-value", optField(fld)(st.Val), "tls.Config."+fld+" receives opts."+fld+" unchanged", "value "+describe(st.Val))
 		}
 		for _, r := range succ {
